@@ -15,6 +15,7 @@ package c04
 import (
 	"fmt"
 	"hash/fnv"
+	"math"
 	"math/rand"
 	"reflect"
 	"sort"
@@ -157,8 +158,16 @@ func enumerate(r *rand.Rand, top *pnode) []fault {
 					if nullable {
 						out = append(out, fault{pos: n, validator: v, source: "config-null"})
 					}
+					if nullable && k.base() == kString && n.t.k == kPtr {
+						// a pre-filled pointer to an EMPTY string / pattern, setting absent:
+						// neither set by the configuration nor "not empty"
+						out = append(out, fault{pos: n, validator: v, source: "default", bad: ""})
+					}
 				case "nonzero":
 					var bad interface{} = canon(k, 0)
+					if k.base() == kFloat && r.Intn(2) == 0 {
+						bad = math.Copysign(0, -1)
+					}
 					out = append(out, fault{pos: n, validator: v, source: "config", bad: bad})
 					if nullable {
 						out = append(out, fault{pos: n, validator: v, source: "default", bad: bad})
@@ -170,6 +179,10 @@ func enumerate(r *rand.Rand, top *pnode) []fault {
 							bad = bad2
 						}
 						out = append(out, fault{pos: n, validator: v, source: "default", bad: bad})
+					}
+					if n.isElem && v.name == "Validate" && !zeroValid(k) {
+						// an explicit null as element: the element becomes the zero value
+						out = append(out, fault{pos: n, validator: v, source: "config-null"})
 					}
 					if nullable || n.isElem {
 						continue
@@ -208,7 +221,7 @@ func enumerate(r *rand.Rand, top *pnode) []fault {
 			// pointer to struct, interface holding a struct, slice, map
 			v := vtag{name: "required"}
 			out = append(out, fault{pos: n, validator: v, source: "absent"})
-			if n.t.k == kPtr || n.t.k == kIface {
+			if n.t.k == kPtr || n.t.k == kIface || n.t.prt != nil {
 				out = append(out, fault{pos: n, validator: v, source: "config-null"})
 			}
 		}
@@ -220,7 +233,8 @@ func enumerate(r *rand.Rand, top *pnode) []fault {
 					continue
 				}
 				out = append(out, fault{pos: n, validator: v, source: "config-empty"},
-					fault{pos: n, validator: v, source: "config-empty+pre-empty"})
+					fault{pos: n, validator: v, source: "config-empty+pre-empty"},
+					fault{pos: n, validator: v, source: "pre-empty"})
 				if n.t.k == kSlice && sliceMode(n.mode) == "replace" {
 					out = append(out, fault{pos: n, validator: v, source: "replaced-by-empty"})
 				}
@@ -325,6 +339,12 @@ func injectColl(n *pnode, f fault) bool {
 		n.inCfg, n.cfgNull = true, false
 		n.inPre = true // non-nil and empty
 		return ensureCfg(n) && ensurePre(n)
+	case "pre-empty":
+		// a non-nil EMPTY pre-filled collection, the setting absent
+		n.kids = nil
+		n.inCfg, n.cfgNull = false, false
+		n.inPre = true
+		return ensurePre(n)
 	case "replaced-by-empty":
 		keepPre(n)
 		if len(n.kids) == 0 {
@@ -398,7 +418,7 @@ func inject(r *rand.Rand, n *pnode, f fault, useVars bool) bool {
 	if f.structLvl {
 		return injectStruct(n, f)
 	}
-	if f.collLvl || strings.HasPrefix(f.source, "config-empty") || f.source == "replaced-by-empty" {
+	if f.collLvl || strings.HasPrefix(f.source, "config-empty") || f.source == "replaced-by-empty" || f.source == "pre-empty" {
 		return injectColl(n, f)
 	}
 	switch f.source {
@@ -435,7 +455,11 @@ func inject(r *rand.Rand, n *pnode, f fault, useVars bool) bool {
 		return true
 	case "config-null":
 		if n.isElem {
-			return false
+			if !n.inCfg || n.inPre {
+				return false
+			}
+			n.cfgNull, n.viaVar = true, false
+			return true
 		}
 		n.clear()
 		n.kids = nil
@@ -499,6 +523,10 @@ func kindClass(k kind) string {
 		return "unpacker-number"
 	case kUStr:
 		return "unpacker-string"
+	case kRegexp:
+		return "regexp"
+	case kDefNaN:
+		return "named-number"
 	}
 	return "number"
 }
@@ -838,6 +866,17 @@ func (check) Run(seed int64, tier string, idx int, verbose bool) harness.Result 
 				src = "initdefaults"
 			}
 			held := heldValue(n)
+			if src == "initdefaults" {
+				held = initValue(k)
+			}
+			if c := floatClass(held); c != "" {
+				res.Ev("valid_special_float_values", 1)
+				res.SetAdd("special_float_valid", c+":"+kindNames[n.t.k]+":"+src)
+			}
+			if n.isElem && n.cfgNull {
+				res.Ev("null_elements_in_valid_plans", 1)
+				res.SetAdd("null_element", kindNames[k]+"@"+n.shape)
+			}
 			if isEdgeValue(held) {
 				res.Ev("valid_values_at_the_edge_of_the_kind", 1)
 				if _, big := held.(uint64); big {
@@ -1135,6 +1174,29 @@ func (check) Run(seed int64, tier string, idx int, verbose bool) harness.Result 
 		if isEdge(f.validator.param) {
 			res.Ev("fault_variants_against_bound_at_the_edge_of_the_kind", 1)
 		}
+		{
+			bad := f.bad
+			if f.source == "initdefaults" {
+				if lk, ok := n.leafKind(); ok {
+					bad = initValue(lk)
+				}
+			}
+			if c := floatClass(bad); c != "" {
+				res.Ev("fault_variants_with_special_float_value", 1)
+				res.SetAdd("special_float_fault", c+":"+f.validator.name+":"+source+":"+shape)
+			}
+		}
+		switch shape {
+		case "double-pointer-field", "pointer-to-collection", "inline-map":
+			res.Ev("fault_variants_at_"+shape, 1)
+			res.SetAdd("fault_at_"+shape, fid+"("+kindNames[n.t.k]+")")
+		}
+		if source == "config-null" && n.isElem {
+			res.Ev("fault_variants_null_element", 1)
+		}
+		if lk, ok := n.leafKind(); ok && lk == kRegexp {
+			res.Ev("fault_variants_at_regexp_pointer", 1)
+		}
 		if unpackerPosition(n) {
 			res.Ev("fault_variants_at_unpacker_typed_positions", 1)
 			res.SetAdd("unpacker_fault", fid)
@@ -1167,11 +1229,13 @@ func (check) Run(seed int64, tier string, idx int, verbose bool) harness.Result 
 					seen = true
 					sig := "completeness:" + fid
 					lk, isLeaf := n.leafKind()
-					if isLeaf && (shape == "pointer-field" || shape == "interface-field") {
+					if isLeaf && (shape == "pointer-field" || shape == "interface-field" || shape == "double-pointer-field") {
 						sig += ":" + kindClass(lk)
 					}
 					tagV := f.validator.name == "min" || f.validator.name == "max" || f.validator.name == "positive"
 					switch {
+					case source == "config-null" && n.isElem:
+						sig = "null-element-not-validated:" + f.validator.name + ":" + shape
 					case prefilledMapEntry(n):
 						sig = "prefilled-map-entry-not-validated"
 					case shape == "pointer-field" && tagV && source == "default":
@@ -1278,6 +1342,10 @@ func canonInto(b *strings.Builder, v reflect.Value) {
 		}
 		canonInto(b, v.Elem())
 	case reflect.Struct:
+		if p, ok := regexpPattern(v); ok {
+			b.WriteString("regexp(" + strconv.Quote(p) + ")")
+			return
+		}
 		b.WriteByte('{')
 		t := v.Type()
 		first := true
@@ -1366,6 +1434,9 @@ func edgeSuffix(v interface{}, vals []vtag) string {
 	}
 	if _, big := v.(uint64); big {
 		return ":value-at-or-above-2^63"
+	}
+	if c := floatClass(v); c != "" {
+		return ":value-" + c
 	}
 	if isEdgeValue(v) {
 		return ":value-at-the-edge-of-the-kind"
